@@ -233,7 +233,21 @@ static int cond_wait_common(pthread_cond_t* c, pthread_mutex_t* m, int timed) {
 }
 
 int __wrap_pthread_cond_wait(pthread_cond_t* c, pthread_mutex_t* m) { lazy_init(); return cond_wait_common(c, m, 0); }
-int __wrap_pthread_cond_timedwait(pthread_cond_t* c, pthread_mutex_t* m, const struct timespec* t) { (void)t; lazy_init(); return cond_wait_common(c, m, 1); }
+static unsigned long einval_count;
+int __wrap_pthread_cond_timedwait(pthread_cond_t* c, pthread_mutex_t* m, const struct timespec* t) {
+    lazy_init();
+    /* POSIX: EINVAL for an abstime whose nanoseconds are outside [0, 10^9) - returned without releasing the mutex, as the real
+     * function does; a caller that treats this as a wake-up spins with the mutex held, which the model reports as a livelock */
+    if (t == NULL || t->tv_nsec < 0 || t->tv_nsec >= 1000000000L) {
+        if (++einval_count > 10000) {
+            static const char msg[] = "VSCHED-DEADLOCK: pthread_cond_timedwait keeps being called with an invalid abstime (tv_nsec outside [0, 1e9)): livelock with the mutex held\n";
+            (void)!write(2, msg, sizeof msg - 1);
+            _exit(66);
+        }
+        return EINVAL;
+    }
+    return cond_wait_common(c, m, 1);
+}
 
 int __wrap_pthread_cond_signal(pthread_cond_t* c) {
     int w[MAXT], n = 0, i, me;
